@@ -280,11 +280,25 @@ class Agg:
 # worker
 # --------------------------------------------------------------------------------------------
 
-OPT_SLICE_MOD = 10  # run indices i with i % 10 == 9 are executed under ``python -O``
+# Interpreter-configuration slices: run indices with i % 10 == residue are executed by a
+# sub-launcher started in another interpreter configuration.  What the library returns for given
+# bytes must not depend on any of them.
+SLICES: dict[str, dict[str, Any]] = {
+    "opt": {"residue": 9, "flags": ["-O"], "env": {},
+            "what": "python -O (asserts compiled away)"},
+    "clocale": {"residue": 4, "flags": [],
+                "env": {"LC_ALL": "C", "LANG": "C", "PYTHONUTF8": "0", "PYTHONCOERCECLOCALE": "0",
+                        "PYTHONIOENCODING": "utf-8"},
+                "what": "C locale without UTF-8 mode (locale encoding ASCII)"},
+}
+SLICE_MOD = 10
 
 
-def in_opt_slice(i: int) -> bool:
-    return i % OPT_SLICE_MOD == OPT_SLICE_MOD - 1
+def slice_of(i: int) -> str:
+    for name, sl in SLICES.items():
+        if i % SLICE_MOD == sl["residue"]:
+            return name
+    return "normal"
 
 
 STOP_AFTER_CANDIDATES = 4
@@ -311,8 +325,8 @@ def _worker(mod: Any, tier: str, verif_seed: int, n_runs: int, deadline: float, 
                 if i >= n_runs:
                     break
                 counter.value = i + 1
-            if (slice_ == "opt" and not in_opt_slice(i)) or (slice_ == "normal" and in_opt_slice(i)):
-                continue  # the other launcher (other interpreter mode) runs this index
+            if slice_ != "all" and slice_of(i) != slice_:
+                continue  # another launcher (other interpreter configuration) runs this index
             seed = rng.run_seed(verif_seed, mod.PROP, i)
             try:
                 res = in_fork(_run_seed, mod, seed, tier, i)
@@ -461,6 +475,7 @@ def write_replay(mod: Any, seed: int, vio: dict[str, Any], minimal: dict[str, An
             "original_plan": vio["plan"],
             "original_digest": vio.get("digest"),
             "interpreter_optimize": int(bool(sys.flags.optimize)),
+            "interpreter_slice": os.environ.get("VERIF_SLICE_NAME") or "normal",
         }, f, indent=1, sort_keys=True)
     return path
 
@@ -558,7 +573,7 @@ def main(argv: list[str]) -> int:
     ap.add_argument("--digests-out", default=None,
                     help="write {run index: event-log digest} here (determinism self-test)")
     ap.add_argument("--no-evidence", action="store_true")
-    ap.add_argument("--slice", default="auto", choices=["auto", "all", "normal", "opt"],
+    ap.add_argument("--slice", default="auto", choices=["auto", "all", "normal"] + sorted(SLICES),
                     help="(internal) which run indices this launcher executes; 'auto' = the normal "
                          "slice here and the -O slice in a sub-launcher started with python -O")
     ap.add_argument("--agg-out", default=None, help="(internal) pickle the aggregate here")
@@ -568,7 +583,14 @@ def main(argv: list[str]) -> int:
     if a.replay:
         try:
             with open(a.replay, encoding="utf-8") as f:
-                replay_opt = bool(json.load(f).get("interpreter_optimize", 0))
+                rpj = json.load(f)
+            replay_opt = bool(rpj.get("interpreter_optimize", 0))
+            sl = SLICES.get(rpj.get("interpreter_slice") or "")
+            if sl and os.environ.get("VERIF_SLICE_NAME") != rpj.get("interpreter_slice"):
+                # the replay runs in the interpreter configuration the run was made in
+                os.environ.update(sl["env"])
+                os.environ["VERIF_SLICE_NAME"] = rpj["interpreter_slice"]
+                os.environ.pop("PYTHONHASHSEED", None)  # force the re-exec below
         except (OSError, ValueError):
             replay_opt = None
     env.reexec_with_fixed_hashseed(no_aslr=bool(a.replay), optimize=replay_opt)
@@ -600,60 +622,70 @@ def main(argv: list[str]) -> int:
     if hasattr(mod, "prepare"):
         mod.prepare(a.tier, verif_seed)
     slice_ = a.slice
-    sub = None
-    sub_agg_path = None
+    subs: list[tuple[str, Any, str]] = []
     if slice_ == "auto":
-        if os.environ.get("VERIF_NO_OPT_SLICE") == "1" or sys.flags.optimize:
+        if os.environ.get("VERIF_NO_SLICES") == "1" or sys.flags.optimize:
             slice_ = "all"
         else:
-            # a tenth of the batch runs under ``python -O`` (asserts compiled away): what the
-            # library returns must not depend on the interpreter mode
             slice_ = "normal"
-            sub_agg_path = os.path.join(env.scratch(), "opt-slice-agg.pickle")
-            cmd = [env.PYTHON, "-O", os.path.join(env.VERIF_ROOT, "bin", "check"), prop, "--tier", a.tier,
-                   "--slice", "opt", "--agg-out", sub_agg_path, "--no-evidence",
-                   "--runs", str(n_runs), "--budget", str(budget), "--workers", str(max(2, workers // 4))]
-            if a.digests_out:
-                cmd += ["--digests-out", a.digests_out + ".opt"]
-            sub = subprocess.Popen(cmd, stdout=subprocess.PIPE, stderr=subprocess.STDOUT, text=True,
-                                   env={**os.environ, "VERIF_REPO": env.REPO})
+            for name, sl in SLICES.items():
+                agg_path = os.path.join(env.scratch(), f"slice-{name}-agg.pickle")
+                cmd = [env.PYTHON] + sl["flags"] + [
+                    os.path.join(env.VERIF_ROOT, "bin", "check"), prop, "--tier", a.tier,
+                    "--slice", name, "--agg-out", agg_path, "--no-evidence",
+                    "--runs", str(n_runs), "--budget", str(budget), "--workers", str(max(2, workers // 4))]
+                if a.digests_out:
+                    cmd += ["--digests-out", a.digests_out + "." + name]
+                envv = {k: v for k, v in os.environ.items() if k != "PYTHONHASHSEED"}
+                envv.update(sl["env"])
+                envv.update({"VERIF_REPO": env.REPO, "VERIF_SLICE_NAME": name})
+                subs.append((name, subprocess.Popen(cmd, stdout=subprocess.PIPE, stderr=subprocess.STDOUT,
+                                                    env=envv), agg_path))
     agg = run_batch(mod, a.tier, verif_seed, n_runs, budget, workers,
                     keep_digests=bool(a.digests_out), slice_=slice_)
     sub_rc = 0
-    sub_lines: list[str] = []
-    if sub is not None:
+    sub_violations = 0
+    for name, sub, agg_path in subs:
+        what = SLICES[name]["what"]
         try:
-            sub_out, _ = sub.communicate(timeout=budget + 1200)
+            sub_out_b, _ = sub.communicate(timeout=budget + 1200)
         except subprocess.TimeoutExpired:
             sub.kill()
-            sub_out, _ = sub.communicate()
-            agg.harness_errors.append("the -O sub-launcher did not finish")
-        sub_rc = sub.returncode
-        sub_lines = [ln for ln in (sub_out or "").splitlines()
-                     if ln.startswith(("VIOLATION", "KNOWN-FINDING", "violation candidate", "HARNESS",
-                                       "replay confirmed"))]
+            sub_out_b, _ = sub.communicate()
+            agg.harness_errors.append(f"the sub-launcher for slice '{name}' did not finish")
+        sub_out = (sub_out_b or b"").decode("utf-8", "replace")
+        rc1 = sub.returncode
+        lines = [ln for ln in sub_out.splitlines()
+                 if ln.startswith(("VIOLATION", "KNOWN-FINDING", "violation candidate", "HARNESS",
+                                   "replay confirmed"))]
         try:
-            with open(sub_agg_path, "rb") as f:
+            with open(agg_path, "rb") as f:
                 sub_agg = pickle.load(f)
+            sub_violations += len(sub_agg.violations)
             sub_agg.violations = []  # judged (minimised, replayed, reported) by the sub-launcher itself
-            opt_runs = sub_agg.runs
+            n_sub = sub_agg.runs
             agg.merge(sub_agg)
-            agg.sums["knobs"]["runs_under_python_-O"] = opt_runs
+            agg.sums["knobs"][f"runs_under:{what}"] = n_sub
         except Exception as e:  # noqa: BLE001
-            if sub_rc in (0, 1):
-                agg.harness_errors.append(f"the -O sub-launcher left no aggregate: {e!r}")
-        for ln in sub_lines:
-            print("[python -O slice] " + ln if not ln.startswith(("VIOLATION", "KNOWN-FINDING")) else ln)
-        if sub_rc not in (0, 1) and not any(ln.startswith("HARNESS") for ln in sub_lines):
-            agg.harness_errors.append(f"the -O sub-launcher exited {sub_rc}: {(sub_out or '')[-400:]}")
+            if rc1 in (0, 1):
+                agg.harness_errors.append(f"the sub-launcher for slice '{name}' left no aggregate: {e!r}")
+        for ln in lines:
+            print(ln if ln.startswith(("VIOLATION", "KNOWN-FINDING")) else f"[slice {name}: {what}] " + ln)
+        if rc1 not in (0, 1) and not any(ln.startswith("HARNESS") for ln in lines):
+            agg.harness_errors.append(f"the sub-launcher for slice '{name}' exited {rc1}: {sub_out[-400:]}")
+        if rc1 == 1:
+            sub_rc = 1
+        elif rc1 in (2, 3) and sub_rc == 0:
+            sub_rc = rc1
     wall_batch = time.monotonic() - t0
     if a.digests_out:
         with open(a.digests_out, "w", encoding="utf-8") as f:
             json.dump({str(k): v for k, v in sorted(agg.digests.items())}, f)
-        try:
-            os.unlink(a.digests_out + ".opt")
-        except OSError:
-            pass
+        for name in SLICES:
+            try:
+                os.unlink(a.digests_out + "." + name)
+            except OSError:
+                pass
     if a.agg_out:
         with open(a.agg_out, "wb") as f:
             keep = agg.violations
@@ -729,7 +761,7 @@ def main(argv: list[str]) -> int:
         for e in agg.harness_errors[:10]:
             print("HARNESS-ERROR " + e)
         rc = 2
-    if agg.runs == 0 and rc == 0 and slice_ != "opt":
+    if agg.runs == 0 and rc == 0 and slice_ not in SLICES:
         print("HARNESS-ERROR no run completed")
         rc = 2
     if rc == 0 and agg.discarded_runs * 2 > agg.runs:
@@ -740,10 +772,10 @@ def main(argv: list[str]) -> int:
     wall = time.monotonic() - t0
     if not a.no_evidence:
         write_evidence(mod, a.tier, verif_seed, agg, wall, wall_batch, n_runs, budget, workers,
-                       n_violations=len(agg.violations), replay_path=replay_path)
+                       n_violations=len(agg.violations) + sub_violations, replay_path=replay_path)
     print(f"{prop} {a.tier}: runs={agg.runs}/{n_runs} evaluations={agg.evals} "
           f"distinct_nontrivial={len(agg.nontrivial)} known_hits={sum(agg.known_hits.values())} "
-          f"violations={len(agg.violations)} harness_errors={len(agg.harness_errors)} "
+          f"violations={len(agg.violations) + sub_violations} harness_errors={len(agg.harness_errors)} "
           f"wall={wall:.1f}s exit={rc}")
     env.cleanup_now()
     return rc
